@@ -169,6 +169,28 @@ def invariances(ao):
             if not abs(got - want) <= 1e-12 * abs(want) or not abs(single - float(f(cn[5:6].copy(), arr[5:6].copy()))) <= 1e-12 * abs(single):
                 bad.append(("%s:integer-%s-profile" % (name, "altitude" if arr is h_f else "wind"), dict(dtype=np.dtype(it).name, got=got, expected=want)))
                 return bad, n
+    # whole magnitudes from a catalogue column of any integer type, signed or unsigned, as arrays and as numpy scalars
+    for band in list(ast.FLUX_DICTIONARY)[:12]:
+        for m_ in (0, 5, 12):
+            want = float(ast.magnitude_to_flux(float(m_), band))
+            for it in (np.uint8, np.uint16, np.uint32, np.uint64, np.int8, np.int32, np.float32):
+                g1 = float(np.ravel(ast.magnitude_to_flux(np.array([m_], dtype=it), band))[0])
+                g2 = float(ast.magnitude_to_flux(it(m_), band))
+                n += 1
+                if not abs(g1 - want) <= 1e-6 * want or not abs(g2 - want) <= 1e-6 * want:
+                    bad.append(("conversion:band:%s:magnitude-of-integer-type" % band, dict(dtype=np.dtype(it).name, magnitude=m_, got=[g1, g2], expected=want)))
+                    return bad, n
+    # long slope records (several thousand frames) with a slow drift of the mean: the variance of the whole record
+    for nfr in (4097, 5000, 9001):
+        t_ = np.arange(nfr)
+        rec = 1e-7 * ((-1.0) ** t_) + 3e-7 * np.sin(2 * np.pi * t_ / nfr) + 2e-7 * t_ / nfr
+        tv = float(np.var(rec.astype(np.longdouble)))
+        want = float(ac.r0_from_slopes(np.sqrt(tv) * pat, 500e-9, 0.2))
+        got = float(np.ravel(ac.r0_from_slopes(rec.copy(), 500e-9, 0.2))[0])
+        n += 1
+        if not abs(got - want) <= 1e-9 * want:
+            bad.append(("conversion:diagram:r0_from_slopes(slope_variance_from_r0)-inverse-pair:long-record", dict(frames=nfr, got=got, expected=want)))
+            break
     # a masked slope record (flagged frames): the flagged samples do not enter the variance
     for r0 in (0.1, 0.4):
         sig = math.sqrt(float(ac.slope_variance_from_r0(r0, 500e-9, 0.2)))
